@@ -212,7 +212,14 @@ class FmpLoweringPass(IRPass):
         info = self.dynamic_memory.get_info(fn)
 
         if not info.needs_fmp:
-            # leaf fast path: no FMP needs, zero plumbing
+            # leaf fast path: no FMP needs, zero plumbing. A discovered plain
+            # return-PC param is still normalized to its dedicated opcode:
+            # on sealed IR the layout no longer does ret-anchored discovery,
+            # so a plain `param` would be counted as a user arg
+            if fn is not fn.ctx.entry_function:
+                return_pc_param = FunctionCallLayout(fn).return_pc_param
+                if return_pc_param is not None:
+                    return_pc_param.opcode = "retpc_param"
             fn._fmp_signature = FmpSignature(has_fmp_param=False, publishes=False)
             return
 
